@@ -128,3 +128,25 @@ fn create_bad_request(status: &Status) -> Response<hyper::Body> {
 
     response
 }
+
+#[cfg(datacake_verif)]
+/// In-memory dispatch used by the verification harness: runs the same
+/// request handling path as a TCP connection would, minus the socket.
+pub(crate) async fn verif_dispatch(
+    state: ServerState,
+    from: SocketAddr,
+    uri: String,
+    headers: http::HeaderMap,
+    body: hyper::Body,
+) -> Response<hyper::Body> {
+    let mut req = Request::builder()
+        .method(http::Method::POST)
+        .uri(uri)
+        .body(body)
+        .unwrap();
+    (*req.headers_mut()) = headers;
+    match handle_connection(req, state, from).await {
+        Ok(r) => r,
+        Err(never) => match never {},
+    }
+}
